@@ -149,7 +149,7 @@ CHECKS["C06"] = {
              "an early close, a soft cancel, a handler error or a forced close. Distinct by action trace + programs."),
     "assumptions": E3_ASSUME + ["known finding F5 is excluded by construction (see known_findings.jsonl); their minimal scenarios are replayed on every run"],
     "subs": [
-        {"test": "TestC06Probe", "prop": "C06/probe", "quick": 16000, "thorough": 400000, "shards_quick": 16, "shards_thorough": 16, "gomaxprocs": 1},
+        {"test": "TestC06Probe", "prop": "C06/probe", "quick": 32000, "thorough": 600000, "shards_quick": 16, "shards_thorough": 16, "gomaxprocs": 1},
     ],
     "floors": {"C06/probe": {"probed": 0.4, "soft_cancel": 0.1, "@nontrivial": 0.3}},
 }
